@@ -17,6 +17,7 @@ package chain
 // transaction is read by the next one).
 import (
 	"bufio"
+	"bytes"
 	"context"
 	"encoding/base64"
 	"encoding/hex"
@@ -24,6 +25,7 @@ import (
 	"fmt"
 	"math/big"
 	"os"
+	"strconv"
 	"strings"
 	"testing"
 
@@ -64,8 +66,9 @@ type c14Str struct {
 	Upper   string `json:"upper"`
 	Addr    string `json:"addr"` // hex of DecodeAddress result
 	AddrOK  bool   `json:"addr_ok"`
+	B58OK   bool   `json:"b58_ok"`
+	B58Len  int    `json:"b58_len"`
 	PeerOK  bool   `json:"peer_ok"`
-	PeerLen int    `json:"peer_len"`
 	Big     string `json:"big"`
 	BigOK   bool   `json:"big_ok"`
 	Allowed bool   `json:"allowed"`
@@ -73,7 +76,9 @@ type c14Str struct {
 	RpcN    int    `json:"rpc_n"`
 	RpcB64  bool   `json:"rpc_b64"`
 	RpcW    bool   `json:"rpc_w"`
-	Enc     string `json:"-"`
+	CcPeer  bool   `json:"cc_peer"`
+	CcAddr  bool   `json:"cc_addr"`
+	CcHex   bool   `json:"cc_hex"`
 }
 
 type c14Obs struct {
@@ -94,15 +99,13 @@ type c14View struct {
 	Balance    string `json:"balance"` // decimal
 	Admins     string `json:"admins"`  // hex raw
 	AdminsSet  bool   `json:"admins_set"`
-	Conf       string `json:"conf"` // hex raw of conf under Args[0] if string
-	ConfSet    bool   `json:"conf_set"`
-	White      string `json:"white"` // hex raw ACCOUNTWHITE conf
-	WhiteSet   bool   `json:"white_set"`
 	Staking    string `json:"staking"` // hex raw
 	VoteBP     string `json:"vote_bp"`
-	VoteDAO    string `json:"vote_dao"` // hex raw vote under upper(Args[0]) if string
-	NameOwner  string `json:"name_owner"` // hex raw name map of aergo.name
-	NameArg    string `json:"name_arg"`   // hex raw name map of Args[0] if string
+	VotesDAO   map[string]string `json:"votes_dao"`  // ID -> hex raw vote of the sender
+	Names      map[string]string `json:"names"`      // hex name -> hex raw name map (present entries)
+	Names0     map[string]string `json:"names0"`     // the same from GetInitialData (start of block)
+	AdminEnc   map[string]string `json:"admin_enc"`  // hex 33-byte chunk -> hex EncodeAddress
+	Confs      map[string]string `json:"confs"`      // upper key -> hex raw conf (present entries)
 	BlockNo    uint64 `json:"block_no"`
 	StakingMin string `json:"staking_min"`
 	NamePrice  string `json:"name_price"`
@@ -163,9 +166,10 @@ func c14strRow(s string) c14Str {
 		r.Addr = hex.EncodeToString(a)
 	}
 	if b, err := base58.Decode(s); err == nil {
+		r.B58OK = true
+		r.B58Len = len(b)
 		if _, err := types.IDFromBytes(b); err == nil {
 			r.PeerOK = true
-			r.PeerLen = len(b)
 		}
 	}
 	if n, ok := new(big.Int).SetString(s, 10); ok {
@@ -183,6 +187,15 @@ func c14strRow(s string) c14Str {
 	}
 	if len(parts) >= 2 && strings.Contains(strings.ToUpper(parts[1]), "W") {
 		r.RpcW = true
+	}
+	if _, err := types.IDB58Decode(s); err == nil {
+		r.CcPeer = true
+	}
+	if _, err := types.ParseMultiaddr(s); err == nil {
+		r.CcAddr = true
+	}
+	if _, err := strconv.ParseUint(s, 16, 64); err == nil {
+		r.CcHex = true
 	}
 	return r
 }
@@ -235,15 +248,54 @@ func c14view(bs *state.BlockState, sender []byte, ci *types.CallInfo, blockNo ui
 		v.Balance = st.Balance().String()
 	}
 	v.Admins, v.AdminsSet = c14raw(bs, types.AergoEnterprise, dbkey.EnterpriseAdmins())
-	v.White, v.WhiteSet = c14raw(bs, types.AergoEnterprise, dbkey.EnterpriseConf([]byte(enterprise.AccountWhite)))
 	v.Staking, _ = c14raw(bs, types.AergoSystem, dbkey.SystemStaking(sender))
 	v.VoteBP, _ = c14raw(bs, types.AergoSystem, dbkey.SystemVote([]byte(types.OpvoteBP.ID()), sender))
-	v.NameOwner, _ = c14raw(bs, types.AergoName, dbkey.Name([]byte(types.AergoName)))
-	if ci != nil && len(ci.Args) > 0 {
-		if a0, ok := ci.Args[0].(string); ok {
-			v.Conf, v.ConfSet = c14raw(bs, types.AergoEnterprise, dbkey.EnterpriseConf([]byte(a0)))
-			v.VoteDAO, _ = c14raw(bs, types.AergoSystem, dbkey.SystemVote([]byte(strings.ToUpper(a0)), sender))
-			v.NameArg, _ = c14raw(bs, types.AergoName, dbkey.Name([]byte(a0)))
+	v.VotesDAO = map[string]string{}
+	for _, id := range []string{"BPCOUNT", "STAKINGMIN", "GASPRICE", "NAMEPRICE"} {
+		if d, ok := c14raw(bs, types.AergoSystem, dbkey.SystemVote([]byte(id), sender)); ok {
+			v.VotesDAO[id] = d
+		}
+	}
+	v.Confs = map[string]string{}
+	for _, k := range []string{enterprise.RPCPermissions, enterprise.P2PWhite, enterprise.P2PBlack, enterprise.AccountWhite} {
+		if d, ok := c14raw(bs, types.AergoEnterprise, dbkey.EnterpriseConf([]byte(k))); ok {
+			v.Confs[k] = d
+		}
+	}
+	v.AdminEnc = map[string]string{}
+	if raw, _ := hex.DecodeString(v.Admins); len(raw) > 0 {
+		for i := 0; i < len(raw); i += types.AddressLength {
+			j := i + types.AddressLength
+			if j > len(raw) {
+				j = len(raw)
+			}
+			v.AdminEnc[hex.EncodeToString(raw[i:j])] = hex.EncodeToString([]byte(types.EncodeAddress(raw[i:j])))
+		}
+	}
+	v.Names = map[string]string{}
+	nameKeys := [][]byte{[]byte(types.AergoName)}
+	if ci != nil {
+		for i, a := range ci.Args {
+			if i > 1 {
+				break
+			}
+			if x, ok := a.(string); ok {
+				nameKeys = append(nameKeys, []byte(x))
+				if d, err := types.DecodeAddress(x); err == nil {
+					nameKeys = append(nameKeys, d)
+				}
+			}
+		}
+	}
+	v.Names0 = map[string]string{}
+	for _, k := range nameKeys {
+		if d, ok := c14raw(bs, types.AergoName, dbkey.Name(k)); ok {
+			v.Names[hex.EncodeToString(k)] = d
+		}
+		if scs, err := statedb.OpenContractStateAccount([]byte(types.AergoName), bs.StateDB); err == nil {
+			if d, err := scs.GetInitialData(dbkey.Name(k)); err == nil && d != nil {
+				v.Names0[hex.EncodeToString(k)] = hex.EncodeToString(d)
+			}
 		}
 	}
 	v.StakingMin = system.GetStakingMinimum().String()
@@ -266,6 +318,7 @@ func TestVerifC14Engine(t *testing.T) {
 	serverCtx := config.NewServerContext("", "")
 	testCfg = serverCtx.GetDefaultConfig().(*config.Config)
 	testCfg.DbType = "memorydb"
+	testCfg.DataDir = t.TempDir() // memorydb dumps to its directory on close: never share ~/.aergo
 	testCfg.EnableTestmode = true
 	dfltUseMempool = false
 	cs := NewChainService(testCfg)
@@ -321,6 +374,9 @@ func TestVerifC14Engine(t *testing.T) {
 		exec := NewTxExecutor(context.Background(), c14ccc{}, cs.cdb, bi, contract.BlockFactory)
 		a := accts[c.Sender%nAcct]
 		payload, _ := base64.StdEncoding.DecodeString(c.Payload)
+		for i, ac := range accts { // "@A0".."@A3" stand for the engine's account addresses
+			payload = bytes.ReplaceAll(payload, []byte(fmt.Sprintf("@A%d", i)), []byte(types.EncodeAddress(ac.addr)))
+		}
 		amt, _ := new(big.Int).SetString(c.Amount, 10)
 		if amt == nil {
 			amt = new(big.Int)
@@ -331,6 +387,9 @@ func TestVerifC14Engine(t *testing.T) {
 		}
 		tx := &types.Tx{Body: &types.TxBody{Nonce: nonce, Account: a.addr, Recipient: []byte(c.Recipient),
 			Amount: amt.Bytes(), Payload: payload, Type: types.TxType(c.Type), ChainIdHash: cidh}}
+		if len(tx.Body.Recipient) == 0 {
+			tx.Body.Recipient = nil
+		}
 		if c.RcptRaw != "" {
 			tx.Body.Recipient, _ = hex.DecodeString(c.RcptRaw)
 		}
@@ -361,6 +420,22 @@ func TestVerifC14Engine(t *testing.T) {
 			c14collect(ci.Args, seen, &o.Strs)
 		}
 		o.View = c14view(bs, a.addr, cip, bi.No)
+		{
+			seen := map[string]bool{}
+			for _, r := range o.Strs {
+				b, _ := hex.DecodeString(r.S)
+				seen[string(b)] = true
+			}
+			if o.Strs == nil {
+				o.Strs = []c14Str{}
+			}
+			for _, raw := range o.View.Confs {
+				b, _ := hex.DecodeString(raw)
+				for _, val := range strings.Split(string(b), "\\")[1:] {
+					c14collect(val, seen, &o.Strs)
+				}
+			}
+		}
 
 		ttx := types.NewTransaction(tx)
 		o.VTypes = c14outcome(func() error { return ttx.Validate(cidh, c.Public) })
@@ -392,7 +467,11 @@ func TestVerifC14Engine(t *testing.T) {
 		})
 
 		nrc := len(bs.Receipts().Get())
-		o.Exec = c14outcome(func() error { return exec(bs, types.NewTransaction(tx)) })
+		if tx.Body.Type == types.TxType_GOVERNANCE {
+			o.Exec = c14outcome(func() error { return exec(bs, types.NewTransaction(tx)) })
+		} else {
+			o.Exec = "SKIP"
+		}
 		if rs := bs.Receipts().Get(); o.Exec == "OK" && len(rs) == nrc+1 {
 			o.Exec = "OK " + rs[nrc].Status + " " + rs[nrc].Ret
 		}
